@@ -379,8 +379,10 @@ void tickit_window_destroy(TickitWindow *win)
   for(TickitWindow *child = win->first_child; child; /**/) {
     TickitWindow *next = child->next;
 
+    /* The unref may well free the child, so it has to be detached from this
+     * window first */
+    tickit_window_close(child);
     tickit_window_unref(child);
-    child->parent = NULL;
     child = next;
   }
 
